@@ -3,6 +3,15 @@
 import json, sys
 pid = sys.argv[1]
 wt = sys.argv[2]
+import glob, os
+tried = []
+for d in sorted(glob.glob(f'/verif/seeded/{pid}-m*')):
+    r = os.path.join(d, 'README.agent.md')
+    if os.path.exists(r):
+        h = next((l for l in open(r) if l.startswith('#')), '').lstrip('# ').strip()
+        f = next((l[6:].strip() for l in open(os.path.join(d, 'patch.diff')) if l.startswith('+++ b/')), '')
+        tried.append(f'  - {h} ({f})')
+TRIED = ('\nEarlier testers already delivered the following changes for this property; yours must break it through DIFFERENT code sites or mechanisms:\n' + '\n'.join(tried) + '\n') if len(sys.argv) > 3 and tried else ''
 p = next(json.loads(l) for l in open('/verif/properties.jsonl') if json.loads(l)['id'] == pid)
 print(f"""You are testing how well a verification effort can detect regressions in the Rust library smlxl/storage-layout-extractor (it disassembles EVM bytecode, symbolically executes it, runs lifting passes and unification-based type inference, and recovers contract storage layouts).
 
@@ -19,7 +28,7 @@ Your task: produce TWO independent, realistic changes to the library's source (u
   (b) still passing the complete existing test suite unchanged (`cargo test --workspace --no-fail-fast --offline`; it takes ~2-4 minutes; do not edit or delete existing tests), and
   (c) looking like a plausible bug a maintainer could introduce (a refactor slip, an off-by-one, a wrong operand order, a dropped guard, an optimisation that is wrong in a corner) - not sabotage such as panicking on a magic constant.
 Prefer changes that need something SPECIFIC to manifest - a particular multi-step sequence of operations, an unusual input or boundary constant, a particular configuration, or two cooperating sites that each look fine alone - rather than ones ordinary use would expose at once. The two changes should break the property through different mechanisms / code sites.
-
+{TRIED}
 For each change i in {{1,2}} deliver, inside {wt}/mutants/m<i>/:
   - patch.diff : `git diff` of the change against the worktree's HEAD (the patch must apply with `git apply` to a clean checkout of HEAD),
   - a demonstration: either an integration test file (e.g. demo.rs, to be dropped into tests/) or a small example program, that FAILS with the change applied and PASSES without it, using only the crate's public API,
